@@ -190,7 +190,14 @@ func reifyInto(opts *options, to reflect.Value, from *Config) Error {
 		return reifyStruct(opts, to, from)
 	case reflect.Slice, reflect.Array:
 		fopts := fieldOptions{opts: opts, tag: tagOptions{}, validators: nil}
-		v, err := reifyMergeValue(fopts, to, cfgSub{from})
+		old := to
+		if to.Kind() == reflect.Array {
+			// an array is filled in place: work on a copy, so that a failed
+			// Unpack leaves the array passed in as it was (as for a struct)
+			old = reflect.New(to.Type()).Elem()
+			old.Set(to)
+		}
+		v, err := reifyMergeValue(fopts, old, cfgSub{from})
 		if err != nil {
 			return err
 		}
